@@ -380,8 +380,9 @@ def runUnlock (s : Srv) (key : String) (args : List Bytes) : Srv × Reply :=
 def runIncrExpire (s : Srv) (key : String) (args : List Bytes) : Srv × Reply :=
   match args with
   | [.num by_, .num ms] =>
-    match s.execPrim (.incrby key by_) with
-    | (s1, .int c) => if c = 1 then ((s1.execPrim (.pexpire key ms)).1, .int c) else (s1, .int c)
+    let r := s.execPrim (.incrby key by_)
+    match r.2 with
+    | .int c => if c = 1 then ((r.1.execPrim (.pexpire key ms)).1, .int c) else (r.1, .int c)
     | _ => (s, .err)
   | _ => (s, .err)
 
